@@ -175,7 +175,8 @@ var registry = map[string]*PropDef{
 	},
 	"C17": {
 		Harnesses: []HarnessDef{
-			{Pkg: "cmd", Func: "VP_C17_Add", Quick: map[string]int{"complen": 1}, Thorough: map[string]int{"complen": 2}, Share: 1.00},
+			{Pkg: "cmd", Func: "VP_C17_Add", Quick: map[string]int{"complen": 1}, Thorough: map[string]int{"complen": 1}, Share: 1.00},
+			{Pkg: "cmd", Func: "VP_C17_Add", ThoroughOnly: true, Thorough: map[string]int{"complen": 2, "neighbour": 0}, Share: 1.00},
 			{Pkg: "cmd", Func: "VP_C17_DottedExt", Quick: map[string]int{}, Thorough: map[string]int{}, Share: 1.00},
 			{Pkg: "cmd", Func: "VP_C17_Forms", Quick: map[string]int{"complen": 1}, Thorough: map[string]int{"complen": 2}, Share: 1.00},
 			{Pkg: "cmd", Func: "VP_C17_Semantics", Quick: map[string]int{}, Thorough: map[string]int{}, Share: 1.00},
